@@ -128,6 +128,6 @@ let () =
            | Some o -> print_endline (show_outcome o))
       | ["sem"; f; nf] ->
           let b = parse_ast (dec_bytes f) in
-          print_endline (show_outcome (sem_block run_line for_words set_var (nat_of_int (int_of_string nf)) b false w0))
+          print_endline (show_outcome (sem_block run_line for_words set_var false (nat_of_int (int_of_string nf)) b false w0))
       | _ -> print_endline "?bad-case"
     with Bad m -> print_endline ("?bad-ast " ^ m)) Sys.argv.(1)
